@@ -39,10 +39,13 @@ class Dumper:
     def __init__(self, it):
         self.it = it
         self.terms = []  # every z3 term that occurs in the dump (for dependency sets)
+        self.term_ctx = []  # (term, ((index var, length term), ...)) — the element-index ranges the term is stated under
+        self.ctx = []
 
     def term(self, t):
         t = z3.simplify(t)
         self.terms.append(t)
+        self.term_ctx.append((t, tuple(self.ctx)))
         return t.sexpr()
 
     def value(self, v, depth=0):
@@ -79,8 +82,12 @@ class Dumper:
                 return {"list" if v.pycls is not tuple else "tuple": [self.value(v.at(i), depth) for i in range(v.length)]}
             K = canon_index(depth)
             n = v.len_term()
-            with IndexContext(it, K, 0, n):
-                e = self.value(v.at(Sym(K, int)), depth + 1)
+            self.ctx.append((K, n))
+            try:
+                with IndexContext(it, K, 0, n):
+                    e = self.value(v.at(Sym(K, int)), depth + 1)
+            finally:
+                self.ctx.pop()
             return {"seq": getattr(v.pycls, "__name__", str(v.pycls)), "len": self.term(n), "elem": e}
         if isinstance(v, SymNdOpaque):
             if v.scalar:
@@ -90,8 +97,12 @@ class Dumper:
                 return {"nd": str(v.dtype_req), "list": [self.value(v.elem(it, i), depth) for i in range(ln)]}
             K = canon_index(depth)
             n = as_int_term(ln)
-            with IndexContext(it, K, 0, n):
-                e = self.value(v.elem(it, Sym(K, int)), depth + 1)
+            self.ctx.append((K, n))
+            try:
+                with IndexContext(it, K, 0, n):
+                    e = self.value(v.elem(it, Sym(K, int)), depth + 1)
+            finally:
+                self.ctx.pop()
             return {"nd": str(v.dtype_req), "len": self.term(n), "elem": e}
         if isinstance(v, SymBytes):
             return {"bytes": [self.term(z3.IntVal(v.fid) if isinstance(v.fid, int) else v.fid),
@@ -156,4 +167,5 @@ def dump_result(it, v):
             out[prefix or "/"] = d.value(x)
 
     rec(v, "")
+    it.__dict__["dump_term_ctx"] = d.term_ctx
     return out, d.terms
